@@ -16,8 +16,8 @@ for d in seeded/*${1:-}*/; do
   name=$(basename "$d")
   prop=$(python3 -c "import json;m=json.load(open('$d/meta.json'));print(m.get('check_with') or m['breaks_property'])")
   exempt=$(python3 -c "import json;print('yes' if 'does not break' in json.load(open('$d/meta.json'))['result'] else 'no')")
-  obsolete=$(python3 -c "import json;print('yes' if json.load(open('$d/meta.json')).get('obsolete') else 'no')")
-  if [ "$obsolete" = "yes" ]; then echo "$name: skipped (obsolete: no longer breaks the property on the current tree, see meta.json)"; continue; fi
+  obsolete=$(python3 -c "import json;print(json.load(open('$d/meta.json')).get('obsolete') or '')")
+  if [ -n "$obsolete" ]; then echo "$name: skipped ($(echo "$obsolete" | cut -c1-110)...)"; continue; fi
   git -C /repo apply "$PWD/$d/patch.diff" || { echo "$name: patch does not apply"; missed=$((missed+1)); continue; }
   if ! ./check build >/dev/null 2>&1; then echo "$name: BUILD FAILED"; git -C /repo checkout -- .; missed=$((missed+1)); continue; fi
   out=$(rxsim/target/release/rxsim check "$prop" quick 2>&1); code=$?
